@@ -1558,8 +1558,10 @@ func (n *RegexNode) reduceConcatenationWithAdjacentLoops() {
 					next++
 					continue
 				}
-			} else if (currentNode.T == NtOneloop || currentNode.T == NtOnelazy) && nextNode.T == NtMulti && currentNode.Ch == nextNode.Str[0] {
-				// Coalescing a loop with a subsequent string
+			} else if (currentNode.T == NtOneloop || currentNode.T == NtOnelazy) && nextNode.T == NtMulti && currentNode.Ch == nextNode.Str[0] &&
+				currentNode.Options&RightToLeft == 0 {
+				// Coalescing a loop with a subsequent string (left-to-right only: right-to-left the string's
+				// LAST characters are the ones adjacent to the loop, e.g. aba* must not become ba+)
 				// Determine how many of the multi's characters can be combined.
 				// We already checked for the first, so we know it's at least one.
 				matchingCharsInMulti := 1
